@@ -124,3 +124,38 @@ fn c13_k8_int2_int1_mul_mixed() {
     kani::cover!(p == -32768);
     kani::cover!(!fits && p > 0);
 }
+
+//@ prop=C13,C03,C11 tier=quick profile=k8 funcs="CheckedMul<Int<2>> for Int<1>,CheckedMul<Uint<2>> for Int<1>,Int::checked_mul_uint_right (result narrower than the other operand),Mul<Int<2>> for Int<1>" bound="u8 words, Int<1> x Int<2> / Uint<2>: every a, b=[S(3), free]: none exactly when the product leaves [-128, 127]" free_bits=20
+#[kani::proof]
+#[kani::unwind(6)]
+fn c13_k8_int1_by_wider_mul_mixed() {
+    let a: Int<1> = Int::from_bits(any_uint());
+    let bw = Uint::<2>::new([Limb(shaped_word(3)), Limb(kani::any())]);
+    let b: Int<2> = Int::from_bits(bw);
+    let p = sval(&a) * sval(&b);
+    let c = CheckedMul::<Int<2>>::checked_mul(&a, &b);
+    let fits = p >= -128 && p <= 127;
+    assert!(bool::from(c.is_some()) == fits);
+    if fits {
+        assert!(sval(&c.unwrap()) == p);
+    }
+    // unsigned wider right operand
+    let q = sval(&a) * (to_u64(&bw) as i64);
+    let fq = q >= -128 && q <= 127;
+    let cu = CheckedMul::<Uint<2>>::checked_mul(&a, &bw);
+    assert!(bool::from(cu.is_some()) == fq);
+    if fq {
+        assert!(sval(&cu.unwrap()) == q);
+    }
+    // Int<2> by Uint<1>, result stored at the width of the unsigned right operand (documented)
+    let r = b.checked_mul_uint_right(&Uint::<1>::new([a.as_uint().as_limbs()[0]]));
+    let pr = sval(&b) * (to_u64(a.as_uint()) as i64);
+    let fr = pr >= -128 && pr <= 127;
+    assert!(bool::from(r.is_some()) == fr);
+    if fr {
+        assert!(sval(&r.unwrap()) == pr);
+    }
+    kani::cover!(!fits && p > 0 && p & 0xff00 == 0x0000 && p > 0xffff); // overflow visible only above the kept limbs
+    kani::cover!(p == -128);
+    kani::cover!(!fq && q < 0);
+}
